@@ -249,8 +249,46 @@ def rule_taint(ck):
                     # division/modulus by an untrusted value: must be guarded against zero
                     z = any(f.blocks[d]["term"]["t"] == "switch" and expr_of(f, f.blocks[d]["term"]["discr"])[0] == "bin" and "0" in expr_str(expr_of(f, f.blocks[d]["term"]["discr"])) for d in f.dominators().get(i, ()))
                     ck.ob("taint.magnitudes", f"{short(owner_fn(f.path))}/divisor#{j}", z, "division by an untrusted value without a zero test", f.loc(i))
+    # stale length facts: a bound obtained as min(x, v.len()) only holds while v is not shrunk
+    ck.rule("taint.fresh_len", "a range bound that was clamped against the length of a vector (min(x, v.len())) is used on that vector before anything shrinks it (truncate / drain / clear / pop / remove / retain / split_off between the len() call and the use make the bound stale)")
+    from rules.C04 import _base_local
+    SHRINK = re.compile(r"Vec::<T, A>::(truncate|drain|clear|pop|remove|swap_remove|retain|retain_mut|split_off|dedup|dedup_by|dedup_by_key)$")
+    n_fresh = 0
+    for p, f in prog.fns.items():
+        if f.kind == "promoted" or not f.file.startswith(files):
+            continue
+        for c in f.calls():
+            if not re.search(r"Vec::<T, A>::(drain|truncate|split_off)$", c.name):
+                continue
+            v = _base_local(f, c.args[0])
+            bound = expr_of(f, c.args[1])
+            tops = []
+            if bound[0] == "agg" and bound[2].startswith("std::ops::Range"):
+                tops = list(bound[4])
+            else:
+                tops = [bound]
+            for tb in tops:
+                x = tb
+                while isinstance(x, tuple) and x[0] in ("cast",):
+                    x = x[2]
+                if not (isinstance(x, tuple) and x[0] == "call" and re.search(r"(::min|>::min|::clamp)$", x[1])):
+                    continue
+                lens = [o for o in _call_objs(x) if o.name.endswith("::len") and _base_local(f, o.args[0]) == v]
+                if not lens:
+                    continue
+                n_fresh += 1
+                ck.saw(f)
+                stale = []
+                for l in lens:
+                    for m in f.calls():
+                        if m is c or not SHRINK.search(m.name):
+                            continue
+                        if _base_local(f, m.args[0]) == v and m.bb in f.after(l.bb) and c.bb in f.after(m.bb):
+                            stale.append(m.name.rsplit("::", 1)[-1])
+                ck.ob("taint.fresh_len", f"{short(owner_fn(f.path))}/{c.name.rsplit('::', 1)[-1]}#{_ord(f, c)}", not stale, f"bound {expr_str(tb, 5)} was clamped against the length before `{stale}` shrank the vector", f.loc(c.bb), what=f"{short(owner_fn(f.path))}: stale length bound used after the vector was shrunk")
+    ck.floor("taint.fresh_len", "length-clamped range bounds", n_fresh, 1)
     ck.floor("taint.magnitudes", "untrusted magnitude sources", n_src, 10)
-    ck.floor("taint.magnitudes", "sinks examined", n_sink, 8)
+    ck.floor("taint.magnitudes", "sinks examined", n_sink, 6)
     # the DAP message length and read_memory_by_pid pre-allocation
     rm = ck.anchor("debugger::read_memory_by_pid")
     wc = [c for c in rm.calls() if re.search(r"with_capacity$", c.name)]
@@ -275,6 +313,11 @@ def rule_taint(ck):
                         g = True
             ok = ok and g
         ck.ob("taint.magnitudes", "read_message/length-capped", ok, "", f.loc(), what="DAP Content-Length allocated without an upper bound")
+
+
+def _call_objs(e):
+    from bsrules.lib import _expr_call_objs
+    return _expr_call_objs(e)
 
 
 def _ord(f, c):
